@@ -13,6 +13,7 @@ package checks
 import (
 	"context"
 	"fmt"
+	"os"
 	"reflect"
 	"sort"
 	"strings"
@@ -32,8 +33,8 @@ var c20Hostile = []string{
 
 type c20Entry struct {
 	Name      string
-	Positions []string                        // name of each client-string position
-	Benign    []string                        // benign value per position
+	Positions []string                          // name of each client-string position
+	Benign    []string                          // benign value per position
 	Call      func(db gdbi.GraphDB, a []string) // must not panic the harness
 }
 
@@ -160,7 +161,7 @@ func C20(tier string) int {
 	sqlrec.Register("postgres", "verifrec")
 	pdb, err := psql.NewGraphDB(psql.Config{Host: "h", Port: 1, User: "u", Password: "p", DBName: "d", SSLMode: "disable"})
 	if err != nil {
-		fmt.Println("C20: cannot start psql driver on the recording database:", err)
+		fmt.Fprintln(os.Stderr, "C20: cannot start psql driver on the recording database:", err)
 		return 2
 	}
 	edb, err := esql.NewGraphDB(esql.Config{Driver: "verifrec", DataSourceName: "x", Graphs: []*esql.Schema{{
@@ -179,7 +180,7 @@ func C20(tier string) int {
 		},
 	}}})
 	if err != nil {
-		fmt.Println("C20: cannot start existing-sql driver on the recording database:", err)
+		fmt.Fprintln(os.Stderr, "C20: cannot start existing-sql driver on the recording database:", err)
 		return 2
 	}
 	sqlrec.Take()
